@@ -9,6 +9,7 @@ import sys
 import time
 
 VERIF = os.path.dirname(os.path.dirname(os.path.abspath(__file__)))
+REPO = os.environ.get("VERIF_REPO", "/repo")      # a copy of the repository when several lanes run side by side (tools/seed_lanes.sh)
 
 
 def sh(cmd, **kw):
@@ -29,7 +30,7 @@ def main():
         meta = json.load(open(os.path.join(d, "meta.json")))
         prop = str(meta.get("property", sid))[:3]
         props = [prop] + [p for p in meta.get("also_run", []) if p != prop]
-        st = sh("git -C /repo status --porcelain")
+        st = sh("git -C %s status --porcelain" % REPO)
         if st.stdout.strip():
             print("refusing: /repo has uncommitted changes")
             return 2
@@ -38,7 +39,7 @@ def main():
         for pp in props:
             ev = os.path.join(VERIF, "evidence", pp + ".json")
             keep[ev] = open(ev, "rb").read() if os.path.exists(ev) else None
-        a = sh("git -C /repo apply %s" % patch)
+        a = sh("git -C %s apply %s" % (REPO, patch))
         if a.returncode != 0:
             results[sid] = {"applied": False, "error": a.stdout.decode()[-400:]}
             continue
@@ -59,8 +60,8 @@ def main():
             results[sid] = r
             print(sid, "caught" if r["caught"] else "MISSED", {p: (v.get("exit"), v.get("with_failing_input")) for p, v in r["checks"].items()})
         finally:
-            sh("git -C /repo checkout -- .")
-            sh("git -C /repo clean -fdq -- compiler docs 2>/dev/null")   # files a patch added
+            sh("git -C %s checkout -- ." % REPO)
+            sh("git -C %s clean -fdq -- compiler docs 2>/dev/null" % REPO)   # files a patch added
             sh("python3 tools/translate.py", cwd=VERIF)                   # the generated facts follow the tree again
             for ev, data in keep.items():
                 if data is not None:
